@@ -247,11 +247,14 @@ func scopeToks(r *Rng, use bool) Toks {
 func (g *ProgGen) Program() Pair {
 	var prog Pair
 	if g.UseConst {
-		prog = Cat(prog, Pair{Toks{"const", "K1", "=", "7", "const", "K2", "=", "K1", "+", "BASE", "const", "K3", "=", "FLAG_TEMP", "const", "KI", "=", "ITEM_CONST"}, nil})
-		g.Consts = [][2]string{{"K1", "7"}, {"K2", "7 + BASE"}, {"K3", "FLAG_TEMP"}}
+		// K4 mentions K5 before K5 is a constant: its value is the text as written at the definition
+		prog = Cat(prog, Pair{Toks{"const", "K1", "=", "7", "const", "K2", "=", "K1", "+", "BASE", "const", "K3", "=", "FLAG_TEMP", "const", "KI", "=", "ITEM_CONST", "const", "K4", "=", "K5", "+", "1", "const", "K5", "=", "9"}, nil})
+		g.Consts = [][2]string{{"K1", "7"}, {"K2", "7 + BASE"}, {"K3", "FLAG_TEMP"}, {"K4", "K5 + 1"}, {"K5", "9"}}
 		g.ConstTok["K1"] = Toks{"7"}
 		g.ConstTok["K2"] = Toks{"7", "+", "BASE"}
 		g.ConstTok["K3"] = Toks{"FLAG_TEMP"}
+		g.ConstTok["K4"] = Toks{"K5", "+", "1"}
+		g.ConstTok["K5"] = Toks{"9"}
 	}
 	ns := 1 + g.R.N(4)
 	for i := 0; i < ns; i++ {
@@ -309,6 +312,15 @@ func (g *ProgGen) Mapscripts(idx int) Pair {
 			m := g.R.N(4)
 			for j := 0; j < m; j++ {
 				v, c := g.constUse(), g.constUse()
+				switch g.R.N(6) { // expressions of several tokens on either side
+				case 0:
+					c = Cat(c, Same("+", "1"))
+				case 1:
+					v = Cat(Same("("), v, Same(")"))
+				case 2:
+					c = Cat(Same("BASE", "+"), c)
+					v = Cat(v, Same("+"), g.constUse())
+				}
 				p = Cat(p, v, Same(","), c)
 				if g.R.P(50) {
 					p = Cat(p, Same(":", fmt.Sprintf("Tab_%d_%d_%d", idx, i, j)))
